@@ -25,7 +25,7 @@ def run(chk):
         hobl.failstop(chk, ex, "bgerror", "BackgroundThreadError", f"C06.{kind}.propagates",
                       "a BackgroundThreadError raised by create_checkpoint leaves the handler unchanged: it is not caught, no update and no user function follow, no outcome is reported")
     from . import executor_contracts, wrapper_contracts
-    executor_contracts.on_task_complete(chk, "C06", want=("C06",))
+    executor_contracts.on_task_complete(chk, "C06", want=("C06", "C07"))   # incl. on_done_decides: a checkpoint failure in a branch is stored as fatal and signalled, never turned into a suspension
     executor_contracts.resubmitter_total(chk, "C06")
     wrapper_contracts.classification(chk, "C06")
     wrapper_contracts.control_signals_not_exceptions(chk, "C06")
